@@ -18,7 +18,7 @@ for b in ben:
     brow.append(f"| {b} | {re.sub(chr(10), ' ', str(m.get('summary','')))[:260].replace('|','/')} | {', '.join(m.get('files', []))[:120]} |")
 text = f"""## 11. Seeded changes and which checks catch them
 
-{len(rows)} property-breaking changes (ten per property, written in five rounds) and {len(ben)} behaviour-preserving refactors were produced by
+{len(rows)} property-breaking changes (twelve per property, written in six rounds) and {len(ben)} behaviour-preserving refactors were produced by
 fresh sub-agents that saw only the text of one property (or, for the refactors, a list of files) and a scratch worktree of /repo -
 nothing from /verif. Each property-breaking change was confirmed by me in a scratch worktree (`tools/confirm_mut.sh`: the patch applies,
 the 179 tests pass with it, its demonstration fails with it and passes without it) and then run against the registered quick check of
@@ -26,12 +26,16 @@ its property (`tools/try_mut.sh` on /repo itself with `git apply` / `git checkou
 worktree plus a private copy of /verif, so that several can run in parallel). Rounds 2-4 told the sub-agents which ideas had been used
 and asked for different kinds (helper modules, tables, Python idiom slips, feature interactions, boundary values, histories, data-flow slips,
 shape-gated tolerance features, exception handling, check ordering); round 5 was a red-team round: the sub-agents were told what the harness
-consists of and asked for changes it is LEAST likely to notice (each explains the blind spot it aims at in `meta.json`).
+consists of and asked for changes it is LEAST likely to notice (each explains the blind spot it aims at in `meta.json`); round 6 was a second
+red-team round whose sub-agents were additionally given every earlier idea and the strengthening it had led to.
 
-**Result.** {len(rows) - 1} of the {len(rows)} changes are reported with a concrete failing input by the quick check of the property they break; one
-(C06_10, a whole new attestation format added to the library) is reported as a broken proof obligation (`no-failing-input-found`: the
-"seven formats" theorem no longer checks against the regenerated enum), because no ceremony of a format that does not exist in the model is
-generated
+**Result.** {len(rows) - 3} of the {len(rows)} changes are reported with a concrete failing input by the quick check of the property they break; three are
+reported as a broken proof obligation / correspondence (`no-failing-input-found`, the replay names what no longer checks): C06_10 (a whole new
+attestation format added to the library: the "seven formats" theorem no longer checks against the regenerated enum, and no ceremony of a format
+that does not exist in the model is generated), C04_12 (an eighth certificate literal in the source: nobody without its private key can build
+the chain that is wrongly accepted - the pinned set of built-in anchors no longer matches) and C18_11 (library code entering
+`warnings.catch_warnings()`, i.e. swapping the process-wide filter list: the failing schedule is a two-bytecode window between threads - the
+"pure functions" premise of the model no longer matches)
 (`tools/all_seeds.sh` / the lane runner re-run them all after every strengthening). {len(missed)} of them were initially MISSED, or
 reported only as a broken proof / correspondence without a failing input; for each the generator or catalogue was strengthened (never
 the expectation loosened), and the list below records what was missing. The {len(ben)} behaviour-preserving refactors (extract / inline
@@ -57,6 +61,26 @@ rawId that differs from the attested id) - decoys naming the EXPECTED value are 
 that chain to the REAL built-in anchors (so that code which stops using the substitutable module attributes is still exercised); value semantics
 of results (an earlier result re-read after later calls), decoder state across calls (CBOR tags 28 / 29), the same credential object verified
 again after one of its fields changed; and arguments that coincide with one another (user id = user name).
+
+Round 6 (second red-team round: all 40 initially missed) showed what every earlier generator had in common: its values came from the harness
+author's idea of "interesting". What was added is mostly generic rather than one catalogue entry per change:
+(a) a **source-derived dictionary** (`harness/srcdict.py`): the literal constants of the CURRENT source that the pinned baseline
+(`harness/srcdict_baseline.json`) does not have - a change that keys its behaviour on a magic value has to spell it somewhere - fed into the
+dimension where each kind could matter: upper-case names become environment variables of the child interpreters, small integers become
+algorithm ids and size thresholds (crossed at n-1, n, n+1), big integers become counters / timestamps / scale factors, dotted strings become
+EKU entries and unrecognised certificate extensions, 16-byte values become AAGUIDs, short words become client-data types and member decoys,
+hex / bytes literals become extension values, credential-id contents and client-data prefixes, certificate literals are compared with the pinned
+anchor fingerprints. On the unchanged tree the dictionary is empty, so it can raise no alarm there;
+(b) a **size ladder** (`fw.size_ladder`: 17, 65, 257, 1025, 4097, 65537, 2^20+1 and the neighbours of new integer literals) for every quantity the
+properties leave unbounded: JSON text length (padding, a large ignored member, a large binary member), transports, descriptor ids and counts,
+challenges, expected-origin lists, TPM2B fields, CBOR bignums;
+(c) more **process environments** (logging at DEBUG for the root / `webauthn` logger, `python -bb`, `-X dev`, a small `PYTHONINTMAXSTRDIGITS`) and both
+ceremony probe groups for every ceremony property;
+(d) **equivalent spellings of the same input**: RP policies as 1 / 0, JSON text with repeated / escaped member names, buffers as windows of larger
+buffers, key members and signatures in other encodings (if accepted at all, they must denote the same key / every bit must count), client data
+with a byte order mark or white space that IS part of what was hashed;
+(e) two **state observers**: the trust anchors actually added to each certificate store (`impl.STORE_LOG`: nothing but RP roots, named built-ins and the
+statement's own certificates), and a spy on process-global configuration calls made directly from library code (`fw.GlobalStateSpy`).
 
 **Detection must not depend on the random stream.** Re-running all seeded changes under other seeds (`VERIF_SEED=1`, `7`) showed that a few catches
 had been luck: a catalogue entry that picks one of several variants at random (which origin alias, which id spelling, which vandalism) only exposes
